@@ -13,7 +13,9 @@ import (
 	"net"
 	"path/filepath"
 	"strings"
+	"errors"
 	"sync"
+	"sync/atomic"
 	"testing"
 	"time"
 
@@ -45,6 +47,32 @@ func (r *c20Reg) Get(key rhp3.RegistryKey) (rhp3.RegistryValue, error) {
 func (r *c20Reg) Entries() (uint64, uint64, error) { return r.get().Entries() }
 func (r *c20Reg) Put(value rhp3.RegistryEntry, expirationHeight uint64) (rhp3.RegistryValue, error) {
 	return r.get().Put(value, expirationHeight)
+}
+
+// c20FaultStore is the registry.Store of a case: the real sqlite store, with a one-shot failure of
+// GetRegistryValue (an error that is not ErrEntryNotFound, as the store returns when it gives up on a
+// busy database) and a note of access-recorder flushes the harness did not ask for.
+type c20FaultStore struct {
+	*sqlite.Store
+	failGet      atomic.Bool
+	expectFlush  atomic.Bool
+	timerFlushes atomic.Int32
+}
+
+var errC20Injected = errors.New("transaction failed (attempt 10): database is locked (injected)")
+
+func (f *c20FaultStore) GetRegistryValue(key rhp3.RegistryKey) (rhp3.RegistryValue, error) {
+	if f.failGet.CompareAndSwap(true, false) {
+		return rhp3.RegistryValue{}, errC20Injected
+	}
+	return f.Store.GetRegistryValue(key)
+}
+
+func (f *c20FaultStore) IncrementRegistryAccess(read, write uint64) error {
+	if !f.expectFlush.Load() {
+		f.timerFlushes.Add(1)
+	}
+	return f.Store.IncrementRegistryAccess(read, write)
 }
 
 // newC20Host is newC14Host with the registry of the session handler replaced by reg.
@@ -85,7 +113,7 @@ func newC20Host(t *testing.T, reg RegistryManager) *c14Host {
 // c20Instr is one instruction of a generated program with the model's view of it.
 type c20Instr struct {
 	in    rhp3.Instruction
-	kind  string // update | read | fail | skip
+	kind  string // update | read | fail | skip | updateF | readF (the manager's lookup fails)
 	k     int
 	entry rhp3.RegistryEntry // update: the entry the operands decode to
 	ver   uint8              // read: effective version
@@ -378,7 +406,7 @@ func TestVerifC20RHP3(t *testing.T) {
 	defer em.Close()
 	em.Count(fmt.Sprintf("tree:failing-instruction-output-forwarded=%v", fwd))
 
-	const directed = 6
+	const directed = 7
 	n := verifN(120)
 	for id := 0; id < n+directed; id++ {
 		if em.Skip(id) {
@@ -398,8 +426,11 @@ func TestVerifC20RHP3(t *testing.T) {
 		if err != nil {
 			t.Fatal(err)
 		}
-		mgr := registry.NewManager(h.hostKey, db, log)
+		fs := &c20FaultStore{Store: db}
+		mgr := registry.NewManager(h.hostKey, fs, log) // replaced by flush()
 		reg.set(mgr)
+		flushed := false
+		var accR, accW, perR, perW int64 // reference: pending and persisted access counts
 
 		vids := map[string]uint64{}
 		vidNum := func(data []byte, sig types.Signature) uint64 {
@@ -461,7 +492,11 @@ func TestVerifC20RHP3(t *testing.T) {
 				}
 			}
 			if cnt != m.Registry.Entries {
-				em.Monitor("count-differs-from-metric", fmt.Sprintf("count %d metric %d", cnt, m.Registry.Entries))
+				if flushed {
+					em.Monitor("metric-differs-from-count-after-flush", fmt.Sprintf("count %d, registry-entries metric %d after the access recorder was flushed", cnt, m.Registry.Entries))
+				} else {
+					em.Monitor("count-differs-from-metric", fmt.Sprintf("count %d metric %d", cnt, m.Registry.Entries))
+				}
 			}
 			if int(cnt) != len(shadow) {
 				em.Monitor("count-differs-from-accepted-keys", fmt.Sprintf("count %d accepted keys %d", cnt, len(shadow)))
@@ -470,6 +505,9 @@ func TestVerifC20RHP3(t *testing.T) {
 		// direct read through the manager and the stored expiration height, after a program
 		look := func(k int) {
 			v, err := mgr.Get(w.keyOf(k))
+			if err == nil {
+				accR++
+			}
 			em.Step(fmt.Sprintf("Base (Get %d)", k), "PBase (OGet "+optEntry(v, err == nil)+")")
 			sh, ok := shadow[k]
 			if ok != (err == nil) || (ok && (v.Revision != sh.v.Revision || v.Type != sh.v.Type || !bytes.Equal(v.Data, sh.v.Data) || v.Signature != sh.v.Signature)) {
@@ -505,6 +543,40 @@ func TestVerifC20RHP3(t *testing.T) {
 			em.Count("op:Tip")
 		}
 
+		// flush: Manager.Close flushes the access recorder into the store; a new manager takes over.
+		// The registry-entries metric must not move; registryReads / registryWrites take the pending counts.
+		flush := func() {
+			fs.expectFlush.Store(true)
+			func() {
+				defer func() {
+					if r := recover(); r != nil {
+						em.Monitor("registry-close-panics", fmt.Sprint(r))
+					}
+				}()
+				mgr.Close()
+			}()
+			fs.expectFlush.Store(false)
+			mgr = registry.NewManager(h.hostKey, fs, log)
+			reg.set(mgr)
+			perR, perW = perR+accR, perW+accW
+			accR, accW = 0, 0
+			flushed = true
+			em.Step("Base (Flush true)", "PBase ODone")
+			em.Count("op:Flush")
+			if fs.timerFlushes.Load() > 0 {
+				em.Count("access:skipped-timer-flush")
+				return
+			}
+			m, err := db.Metrics(time.Now().Add(time.Hour))
+			if err != nil {
+				t.Fatal(err)
+			}
+			em.Step("Base Access", fmt.Sprintf("PBase (OAccess %d %d)", m.Registry.Reads, m.Registry.Writes))
+			if int64(m.Registry.Reads) != perR || int64(m.Registry.Writes) != perW {
+				em.Monitor("access-metrics-differ-from-flushed-accesses", fmt.Sprintf("reads %d writes %d, flushed %d / %d", m.Registry.Reads, m.Registry.Writes, perR, perW))
+			}
+		}
+
 		// runProgram sends p, records it, and evaluates the monitors on what came back
 		runProgram := func(p *c20Program) {
 			initc, icost := c20Cost(p.pt)
@@ -514,12 +586,18 @@ func TestVerifC20RHP3(t *testing.T) {
 			// its own prefix on the stored values gives the stored value at each instruction
 			stored := map[int]shadowed{}
 			for k := 0; k < 4; k++ {
-				if v, err := mgr.Get(w.keyOf(k)); err == nil {
+				if v, err := db.GetRegistryValue(w.keyOf(k)); err == nil { // not through the manager: its Get counts as an access
 					stored[k] = shadowed{v: v}
 				}
 			}
 			cntBefore, limBefore, _ := mgr.Entries()
+			for _, in := range p.instrs {
+				if in.kind == "updateF" || in.kind == "readF" {
+					fs.failGet.Store(true) // consumed by the first lookup the program makes
+				}
+			}
 			started, resps, done, pan, site := w.run(p)
+			fs.failGet.Store(false)
 			if pan != nil {
 				em.Monitor("panic-"+site, fmt.Sprint(pan))
 				w.conn = h.connect()
@@ -568,6 +646,8 @@ func TestVerifC20RHP3(t *testing.T) {
 						}
 						if !hasOld {
 							cnt++
+						} else {
+							accW++
 						}
 						stored[in.k] = shadowed{v: in.entry.RegistryValue}
 						shadow[in.k] = shadowed{v: in.entry.RegistryValue, exp: exp}
@@ -627,12 +707,47 @@ func TestVerifC20RHP3(t *testing.T) {
 						data = data[:len(data)-1]
 						ty = fmt.Sprintf("(Some %d%%N)", tyv)
 					}
+					accR++
 					rs = append(rs, fmt.Sprintf("RValue %d %d %s", rev, vidNum(data, sig), ty))
 					if !has || rev != sh.v.Revision || sig != sh.v.Signature || !bytes.Equal(data, sh.v.Data) || (in.ver == 2 && tyv != sh.v.Type) {
 						em.Monitor("read-instruction-differs-from-last-accepted-update", fmt.Sprintf("key %d: read revision %d data %x, last accepted update revision %d data %x (any: %v)", in.k, rev, data, sh.v.Revision, sh.v.Data, has))
 					}
 					if !verOK || !paid {
 						em.Monitor("instruction-ran-without-budget", fmt.Sprintf("read version %d with %v left, cost %v", in.ver, rem, icost))
+					}
+				case "updateF":
+					valid := rhp3.ValidateRegistryEntry(in.entry) == nil
+					body = append(body, fmt.Sprintf("IUpdateF %d %s %s", in.k, entryTerm(in.entry.RegistryValue), coqBool(valid)))
+					if r == nil {
+						break
+					}
+					old, hasOld := stored[in.k]
+					em.Count(fmt.Sprintf("update-lookup-fault:valid=%v,stored=%v,paid=%v,accepted=%v", valid, hasOld, paid, r.err == nil))
+					if r.err == nil {
+						rs = append(rs, "RAccepted")
+						em.Monitor("update-accepted-although-lookup-failed", fmt.Sprintf("key %d: update instruction accepted although the manager's lookup of the stored entry failed (stored: %v)", in.k, hasOld))
+						if hasOld && rhp3.ValidateRegistryUpdate(rhp3.RegistryEntry{RegistryKey: in.entry.RegistryKey, RegistryValue: old.v}, in.entry, w.hostID) != nil {
+							em.Monitor("accepted-non-superseding-update", fmt.Sprintf("key %d stored rev %d new rev %d (the lookup of the stored entry failed)", in.k, old.v.Revision, in.entry.Revision))
+						}
+					} else {
+						out := "None"
+						if len(r.out) > 0 {
+							out = "(Some 0%N)"
+							em.Monitor("failed-update-has-output", fmt.Sprintf("%d bytes", len(r.out)))
+						}
+						rs = append(rs, "RError "+out)
+					}
+				case "readF":
+					body = append(body, fmt.Sprintf("IReadF %d %d", in.k, in.ver))
+					if r == nil {
+						break
+					}
+					em.Count(fmt.Sprintf("read-lookup-fault:paid=%v,ok=%v", paid, r.err == nil))
+					if r.err == nil {
+						rs = append(rs, "RSkipped")
+						em.Monitor("read-succeeded-although-lookup-failed", fmt.Sprintf("key %d", in.k))
+					} else {
+						rs = append(rs, "RError None")
 					}
 				case "fail":
 					body = append(body, "IFail")
@@ -744,6 +859,16 @@ func TestVerifC20RHP3(t *testing.T) {
 				default:
 					off := d.put(bytes.Repeat([]byte{0xab}, 32))
 					p.instrs = append(p.instrs, c20Instr{in: &rhp3.InstrHasSector{MerkleRootOffset: off}, kind: "skip", label: "has-sector"})
+				}
+			}
+			if rng.Intn(6) == 0 {
+				// the manager's lookup of the stored entry fails during the first registry instruction
+				// of the program (the one-shot fault is consumed by the first lookup)
+				for i := range p.instrs {
+					if p.instrs[i].kind == "update" || p.instrs[i].kind == "read" {
+						p.instrs[i].kind += "F"
+						break
+					}
 				}
 			}
 			if rng.Intn(12) == 0 {
@@ -887,6 +1012,25 @@ func TestVerifC20RHP3(t *testing.T) {
 			p.amount = types.NewCurrency64(1 + 3)
 			runProgram(p)
 			after()
+		case 6:
+			// the manager's lookup of the stored entry fails while a stale, the same and a newer update
+			// arrive (seeded C20-mut9) and while a read arrives; then updates of a stored key, reads and a
+			// flush of the access recorder (seeded C20-mut10: the registry-entries metric must not move)
+			setLimit(2)
+			runProgram(prog(10, func(d *c20Data) []c20Instr { return []c20Instr{upd(d, mk(0, 5, 1), 0)} }))
+			faulty := func(in c20Instr) c20Instr { in.kind += "F"; return in }
+			runProgram(prog(10, func(d *c20Data) []c20Instr { return []c20Instr{faulty(upd(d, mk(0, 3, 2), 0)), rd(d, 0, 1)} }))
+			after()
+			runProgram(prog(10, func(d *c20Data) []c20Instr { return []c20Instr{faulty(upd(d, mk(0, 5, 1), 0))} }))
+			runProgram(prog(10, func(d *c20Data) []c20Instr { return []c20Instr{faulty(upd(d, mk(0, 7, 3), 0))} }))
+			runProgram(prog(10, func(d *c20Data) []c20Instr { return []c20Instr{faulty(rd(d, 0, 2)), rd(d, 0, 1)} }))
+			after()
+			runProgram(prog(10, func(d *c20Data) []c20Instr { return []c20Instr{upd(d, mk(0, 6, 4), 0), upd(d, mk(0, 7, 5), 0), rd(d, 0, 2), rd(d, 0, 1)} }))
+			flush()
+			after()
+			runProgram(prog(10, func(d *c20Data) []c20Instr { return []c20Instr{upd(d, mk(1, 1, 1), 1), upd(d, mk(0, 8, 6), 0), rd(d, 1, 2)} }))
+			flush()
+			after()
 		default:
 			setLimit([]uint64{0, 1, 1, 2, 2, 3, 3, 4}[rng.Intn(8)])
 			nprog := 3 + rng.Intn(7)
@@ -905,6 +1049,9 @@ func TestVerifC20RHP3(t *testing.T) {
 				case 1:
 					tip(uint64(rng.Intn(3)) * 60000)
 				}
+				if rng.Intn(6) == 0 {
+					flush()
+				}
 				if rng.Intn(2) == 0 {
 					after()
 				} else {
@@ -912,6 +1059,8 @@ func TestVerifC20RHP3(t *testing.T) {
 				}
 			}
 			after()
+			flush()
+			info()
 		}
 
 		func() {
